@@ -158,7 +158,7 @@ class Scenario:
 _run_ctr = [0]
 
 
-def g2_run(sc, chooser, exe, max_calls=600, stall=None):
+def g2_run(sc, chooser, exe, max_calls=600, stall=None, yield_spins=True):
     """one fresh execution of scenario `sc`; returns dict(lines=[driver input], results=..., stalled=proc or None)"""
     _run_ctr[0] += 1
     tag = "%d_%d" % (os.getpid(), _run_ctr[0])
@@ -234,11 +234,8 @@ def g2_run(sc, chooser, exe, max_calls=600, stall=None):
                 ncalls[pick] += 1
                 text = canon.line(pick, c)
                 lines.append("X %d %s" % (names.index(pick), text))
-                if canon.is_spin(text):
+                if canon.is_spin(text) and yield_spins:
                     spun.add(pick)
-                    if stall is not None and ncalls[pick] >= stall and len(pend) == 1:
-                        stalled = pick
-                        break
                 else:
                     spun.discard(pick)
                 for o in list(spun):
@@ -361,11 +358,11 @@ def witness_zero_size_spin(exe):
         if state["phase"] < 15 and "p0" in enabled:
             state["phase"] += 1
             return "p0"
-        return "p1" if "p1" in enabled else None
+        return "p1" if "p1" in enabled else enabled[0]
 
     # the services directory exists: creator calls = access, stat, creat tag, fchmod, write, fchmod, stat, creat static, fchmod, write, fchmod, shm_creat
     state["phase"] = 3
-    rec = g2_run(sc, chooser, exe, stall=80)
+    rec = g2_run(sc, chooser, exe, stall=80, yield_spins=False)
     spins = sum(1 for l in rec["lines"] if re.match(r"X 1 fstat dyn\d+ zero", l))
     return rec, spins
 
